@@ -570,6 +570,7 @@ func adapterInput(adapter string, vals map[string]string) (string, bool) {
 var adapterPkg = map[string][2]string{
 	"rules_att":  {"rules/standard", "TestVerifReplayRulesAtt"},
 	"rules_prop": {"rules/standard", "TestVerifReplayRulesProp"},
+	"regexify":   {"services/checker/static", "TestVerifReplayRegexify"},
 }
 
 // runReplay injects the adapter as an in-package test through -overlay (nothing is written to the repo).
